@@ -119,7 +119,9 @@ def leaf_iterated(world, cfg, ty, p) -> bool:
     if k == "nt":
         fts = [f["ty"] for f in world["classes"][ty[1]]["fields"]]
         return leaf or any(leaf_iterated(world, cfg, a, x) for a, x in zip(fts, items()))
-    if k in ("dict", "map", "mmap"):
+    if k == "counter":
+        return t == "d" and any(leaf_iterated(world, cfg, ty[1], a) for a, b in p[1])
+    if k in ("dict", "map", "mmap", "odict", "ddict"):
         return t == "d" and any(leaf_iterated(world, cfg, ty[1], a) or leaf_iterated(world, cfg, ty[2], b) for a, b in p[1])
     if k in ("opt", "new", "ann", "final", "alias"):
         return leaf_iterated(world, cfg, ty[1], p)
